@@ -49,7 +49,12 @@ class Kemeny(Suite):
             else:
                 base = [e for e in univ if rng.random() < 0.8]  # may lack an element
             c = gen.random_ranking(rng, base, 1.0, rng.choice([1.0, 0.7, 0.4, 0.1]))
+            if rng.random() < 0.12:         # a candidate with empty buckets (accepted by Ranking; they hold no pair)
+                for _ in range(rng.randint(1, 2)):
+                    c.insert(rng.randint(0, len(c)), [])
             case = {"s": gen.pick_scheme(rng), "D": D, "c": c}
+            if rng.random() < 0.2:
+                case["neighbours"] = True   # the same candidate was scored under proportional schemes just before (same process)
             if rng.random() < 0.25:
                 case["via"] = "consensus"       # the score is read on a Consensus object built over the candidate (several per process)
             cases.append(case)
@@ -73,6 +78,12 @@ class Kemeny(Suite):
                 v = co.kemeny_score
                 assert co.kemeny_score == v
             else:
+                if case.get("neighbours"):
+                    for k in (2.0, 0.5):
+                        try:
+                            KemenyComputingFactory(ScoringScheme([[x * k for x in case["s"][0]], [x * k for x in case["s"][1]]])).get_kemeny_score(cand, ds)
+                        except Exception:
+                            pass
                 v = KemenyComputingFactory(sc).get_kemeny_score(cand, ds)
             out["score"] = to_units(v)
             out["raw"] = float(v)
@@ -97,6 +108,7 @@ class Kemeny(Suite):
         univ = {e for r in out["D"] for b in r for e in b}
         cs = {e for b in out["c"] for e in b}
         acc["read_on_a_Consensus_object"] = acc.get("read_on_a_Consensus_object", 0) + int(case.get("via") == "consensus")
+        acc["candidate_with_empty_bucket"] = acc.get("candidate_with_empty_bucket", 0) + int(any(len(b) == 0 for b in out["c"]))
         acc["superset_candidate"] = acc.get("superset_candidate", 0) + int(cs > univ)
         acc["incomplete_dataset"] = acc.get("incomplete_dataset", 0) + int(any({e for b in r for e in b} != univ for r in out["D"]))
         s = case["s"]
